@@ -31,7 +31,7 @@ COMPONENTS = {
     "stub": ["event-loop selector and clock (VirtualLoop)", "os/glob/random in dali.driver.hid",
              "serial_asyncio in dali.driver.serial", "gateway firmware, DALI bus, bus units"],
 }
-PROBES = ["units-overlapped", "seq-raised", "seq-cancelled", "cancel-while-holding-lock",
+PROBES = ["parallel-sends-under-one-lock", "send-cancelled", "generator-misbehaves-on-close", "units-overlapped", "seq-raised", "seq-cancelled", "cancel-while-holding-lock",
           "lock-contended", "dt-command-sent", "locked-unit", "start-tie"]
 
 
@@ -41,7 +41,8 @@ def gen_plan(seed, tier="quick"):
     ncallers = r.choice([2, 2, 3, 3, 4])
     plan = {"engine": "drvsim", "property": PROP, "driver": driver, "seed": seed,
             "knobs": plans.gen_knobs(r, driver, allow_batch=True),
-            "callers": plans.gen_callers(r, driver, ncallers, 3 if tier == "quick" else 4),
+            "callers": plans.gen_callers(r, driver, ncallers, 3 if tier == "quick" else 4,
+                                         cancel_sends=True, parallel=0.06),
             "deadline_s": 600}
     return plan
 
@@ -60,7 +61,7 @@ def judge(rr):
         stuck = [u for u, o in rr.ops.items() if o.status in ("pending", "running")]
         V("caller-never-completes", "deadlock=%s stepcap=%s pending=%s stuck_units=%s" % (
             rr.deadlock, rr.stepcap, rr.pending, stuck),
-          site=_stuck_site(rr, stuck))
+          site=None)
     if rr.final.get("tx_lock"):
         V("transaction-lock-held-at-end", "transaction_lock still locked at quiescence")
     # wire log grouped by unit
@@ -87,7 +88,12 @@ def judge(rr):
         got = by_unit.get(u, [])
         if drv == "hasseb":
             exp = _hasseb_expand(specs)
-        if rec.status == "ok":
+        if rec.op.get("bad_close"):
+            # a generator that yields from its finally clause: what it emits while an
+            # exception unwinds it is its own business; contiguity, completion and
+            # the lock are still judged
+            pass
+        elif rec.status == "ok":
             if got != exp:
                 V(_classify(exp, got), "unit %s (%s): wire %s expected %s" % (
                     u, rec.op["kind"], _fmt(got), _fmt(exp)), site=rec.op["kind"])
@@ -100,7 +106,7 @@ def judge(rr):
             # still waited for the lock) has run no code and holds nothing:
             # GEN_CREATED is accepted, a started generator must be closed
             if rec.status in ("ok", "raised", "cancelled", "timeout") and rec.gen is not None \
-                    and rec.gen_state not in ("GEN_CLOSED", "GEN_CREATED"):
+                    and rec.gen_state not in ("GEN_CLOSED", "GEN_CREATED") and not rec.op.get("bad_close"):
                 V("sequence-not-closed", "unit %s ended %s but generator is %s" % (
                     u, rec.status, rec.gen_state), site="run_sequence")
             ra = rec.op.get("raise_at")
@@ -167,6 +173,12 @@ def run_plan(plan):
                 w.probe("cancel-while-holding-lock")
         if rec.op["kind"] == "locked":
             w.probe("locked-unit")
+        if rec.op["kind"] == "parallel":
+            w.probe("parallel-sends-under-one-lock")
+        if rec.op["kind"] in ("send", "locked") and rec.status == "cancelled":
+            w.probe("send-cancelled")
+        if rec.op.get("bad_close") and rec.status in ("raised", "cancelled"):
+            w.probe("generator-misbehaves-on-close")
         if any(cmds.mk_cmd(s).devicetype for s in drvsim.op_cmd_specs(rec.op)):
             w.probe("dt-command-sent")
     st = [c.get("start_us", 0) for c in plan["callers"]]
